@@ -51,6 +51,10 @@ def expand_names(ids, rule, shape):
             return '#[ts(rename_all = "%s")] enum E { %s }' % (rule, " ".join("r#%s," % i for i in group))
         if shape == "tagged_struct_variant":     # the tag value written into a struct variant of an internally tagged enum
             return '#[ts(tag = "t", rename_all = "%s")] enum E { %s }' % (rule, " ".join("%s {}," % i for i in group))
+        if shape == "de_only_field":             # a convention for deserialization only: the names serde WRITES stay as they are
+            return '#[serde(rename_all(deserialize = "%s"))] struct S { %s }' % (rule, " ".join("%s: u8," % i for i in group))
+        if shape == "de_only_variant":
+            return '#[serde(rename_all(deserialize = "%s"))] enum E { %s }' % (rule, " ".join("%s," % i for i in group))
         if shape == "renamed_field":             # an explicit rename is used verbatim, whatever the container's convention
             return '#[ts(rename_all = "%s")] struct S { %s }' % (rule, " ".join('#[ts(rename = "%s")] f%d: u8,' % (i, k) for k, i in enumerate(group)))
         if shape == "renamed_variant":
@@ -63,7 +67,7 @@ def expand_names(ids, rule, shape):
 
     def names_of(tokens, n):
         names = (macrodrv.tag_values(tokens) if shape == "tagged_struct_variant" else
-                 macrodrv.unit_variant_names(tokens) if shape in ("variant", "raw_variant", "renamed_variant") else macrodrv.field_names(tokens))
+                 macrodrv.unit_variant_names(tokens) if shape in ("variant", "raw_variant", "renamed_variant", "de_only_variant") else macrodrv.field_names(tokens))
         if len(names) == 2 * n and names[:n] == names[n:]:
             names = names[:n]        # inline() and inline_flattened() carry the same list
         if len(names) != n:
@@ -174,6 +178,9 @@ def run_core(tier, prop):
     for rule in RULES:
         for shape, pos in (("renamed_field", "field"), ("renamed_variant", "variant")):
             for i, n in expand_names(plain, rule, shape).items():
+                verb[(shape, rule, i, pos)] = n
+        for shape, pos in (("de_only_field", "field"), ("de_only_variant", "variant")):
+            for i, n in expand_names([x for x in plain if x != "_"], rule, shape).items():
                 verb[(shape, rule, i, pos)] = n
     # ADJUDICATE
     recs, meta = [], []
